@@ -9,6 +9,17 @@ ENGINE_NOTE = ("Lean kernel; axioms propext/Classical.choice/Quot.sound; the eng
                "Lean driver and an independent naive least-model oracle; rustc, syn/quote, hash maps (C19), petgraph (validated by validOrder) and the "
                "evaluation of embedded Rust expressions (theorems hold for every interpretation) are modelled, not verified.")
 CLAIMS = {
+ "C03": dict(
+   engine="tie-B-engine",
+   technique="Lean 4 proof: lattice programs reach the least closed database (one row per key, closed, below every closed database) + compiled lattice-program correspondence",
+   text="Lean 4 theorems for every aggregation-free program mixing relations and lattice relations, every interpretation whose join_mut satisfies LatOrder "
+        "(upper bound, least, flag false => nothing to change; instantiated for the i64 / Dual<i64> columns via the C16 model), every input with one row per key, "
+        "serial mode: after run() every lattice relation has exactly one row per key (run_lattice_key_unique), the result is closed - every rule instance over the "
+        "FINAL values has its head dominated, i.e. every increase was propagated (run_lattice_closed) - and for programs using lattice values monotonically it "
+        "is below every key-unique closed database: the least fixed point (run_lattice_least); relation rows stay sets (run_lattice_rel_rows_set). Tied by "
+        "compiled generated programs over i64 / Dual<i64> / Set<i64> / Option<i64> lattices (seeded, recursive through the lattice, saturating increments) vs "
+        "the model (rows with multiplicities) and a Kleene-iteration oracle.",
+   design_ref="DESIGN.md §8 C03", note=ENGINE_NOTE + " Reads of lattice rows are modelled as a snapshot at rule-variant start (the real code reads live values; for monotone programs both reach the same fixed point); parallel lattices: C02."),
  "C04": dict(
    engine="tie-B-engine",
    technique="Lean 4 proof that run() of a stratified program = least model with every agg/negation evaluated on the FINAL relation, each tuple once + compiled-program correspondence",
